@@ -31,6 +31,10 @@ use tokio::time::sleep;
 pub const DEFAULT_RPC_TIMEOUT: Duration = Duration::from_secs(10);
 pub const DEFAULT_CONNECT_RETRY_ATTEMPTS: u32 = 10;
 pub const DEFAULT_CONNECT_RETRY_DELAY: Duration = Duration::from_millis(500);
+/// How long the receiver of a connection waits for the next frame or tick before it gives
+/// the peer up: Erlang's default `net_ticktime`. A peer that has nothing to say sends a tick
+/// every quarter of its tick time (every 15 seconds by default).
+pub const DEFAULT_NET_TICK_TIME: Duration = Duration::from_secs(60);
 
 /// Forgets an outstanding remote call when the call is over, however it ends: with a result, or
 /// because its future was dropped before completion (an outer timeout, `select!`, an aborted task).
@@ -223,7 +227,9 @@ impl Node {
             )
         })?;
 
-        let timeout = conn.timeout();
+        // the connect timeout bounds the handshake; an established connection is only given
+        // up when the peer has been silent for a whole tick time
+        let timeout = conn.timeout().max(DEFAULT_NET_TICK_TIME);
 
         self.connections
             .insert(remote_node.clone(), Arc::new(Mutex::new(conn)));
